@@ -1,13 +1,17 @@
 #!/bin/sh
 # usage: seedrun.sh <patch.diff> <property> [more properties...]
-# Applies a seeded change to /repo, runs the quick checks of the given properties, reverts.
+# Applies a seeded change to /repo, runs the quick checks of the given properties (work files,
+# replays and evidence go to /verif/.work/seedrun, not to /verif/evidence), reverts.
+export GOFLAGS=-mod=mod GOPROXY=off GOSUMDB=off GOTOOLCHAIN=local
 patch="$1"; shift
 cd /repo || exit 2
 git diff --quiet || { echo "/repo has uncommitted changes"; exit 2; }
 git apply "$patch" || { echo "patch does not apply"; exit 2; }
+mkdir -p /verif/.work/seedrun
 for p in "$@"; do
-  /verif/bin/govc check -prop $p -tier quick > /tmp/seedrun_$p.log 2>&1
+  log=/verif/.work/seedrun/$(basename $(dirname "$patch"))_$p.log
+  /verif/bin/govc check -prop $p -tier quick -out /verif/.work/seedrun > $log 2>&1
   rc=$?
-  echo "  $p: exit $rc; $(grep -c '^VIOLATION' /tmp/seedrun_$p.log) violation line(s); $(grep '^VIOLATION' /tmp/seedrun_$p.log | head -2 | sed -E 's/replay=[^ ]+ //' | cut -c1-200)"
+  echo "  $p: exit $rc; $(grep -c '^VIOLATION' $log) violation line(s); $(grep '^VIOLATION' $log | head -3 | sed -E 's/replay=[^ ]+\/([^ /]+)/replay=\1/' | cut -c1-220 | tr '\n' '|')"
 done
-git checkout -- . 
+git checkout -- .
